@@ -7,7 +7,7 @@ import ast
 from ..core import astutil as A
 from ..core.index import AnalysisError, ClassInfo, external_init_signature, external_signature
 from ..selftest import M
-from .common import (BASE_OUTLINE, OTF_OUTLINE, T, attr_stores, calls_named, compiler_field_classes, conds, every_origin, facts, key,
+from .common import (may_conds, BASE_OUTLINE, OTF_OUTLINE, T, attr_stores, calls_named, compiler_field_classes, conds, every_origin, facts, key,
                      need, subscript_stores, where)
 from .rounding import check_banned_coercions, check_helper, flows_through_otround, is_otround
 
@@ -225,7 +225,7 @@ def r015(prog, chk):
         in_loop = any(isinstance(a, (ast.For, ast.While)) for a in prog.ix.ancestors(d))
         direct = len(d.args) == 1 and isinstance(d.args[0], ast.Name) and d.args[0].id == pen_name and T(d.func.value) == g.params()[1]
         order = cfg.dominates(cfg.node_of(pens[0]), cfg.node_of(d)) and cfg.dominates(cfg.node_of(d), cfg.node_of(gcs[0]))
-        uncond = not conds(prog, g, d)
+        uncond = not may_conds(prog, g, d)
         same_pen = T(gcs[0].func.value) == pen_name
         ok = (not in_loop) and direct and order and uncond and same_pen
     chk.ob("R01.5", f"{g.short}|glyph drawn once, directly into its charstring pen", ok, where(g),
